@@ -267,7 +267,16 @@ class Lowering:
             return acc
 
         ip.overrides["reduce"] = _reduce
-        self.selfobj = Obj("GeometryLoweringApplier", __class__=self.cls, _preserve_types=Obj("table", __getitem__=lambda k: False))
+        self.selfobj = Obj("GeometryLoweringApplier", __class__=self.cls)
+        # the applier's own __init__ from source (whatever working state it sets up), with an empty preserve set;
+        # the per-typecode table is then replaced by a name-indexed one
+        ip.skip_functions.add("MultiFunction.__init__")
+        ip.class_attrs = dict(getattr(ip, "class_attrs", None) or {})
+        ip.class_attrs[("ufl.core.expr", "Expr", "_ufl_num_typecodes_")] = len(ctx.tm.types)
+        init = prog.lookup(self.cls, "__init__")
+        if init is not None and init.cls is self.cls:
+            ip.call_function(init, [], {}, self_obj=self.selfobj)
+        self.selfobj.attrs["_preserve_types"] = Obj("table", __getitem__=lambda k: False)
         prev = ip.isinstance_hook
 
     def placeholder(self, name):
